@@ -10,7 +10,7 @@ from ..core import mkstate, h
 LEVEL = 'fault_enumeration'
 
 
-def scenario_state(shape, nested):
+def scenario_state(shape, nested, dotted=False):
     res = []
     for i, n in enumerate(shape):
         res.append(('r%d' % i, [('id', 'integer'), ('t', 'string'), ('x', 'number')],
@@ -19,6 +19,10 @@ def scenario_state(shape, nested):
     if nested:
         for i, r in enumerate(st.desc['resources']):
             r['path'] = 'data/sub%d/r%d.csv' % (i, i)
+    if dotted:
+        # legal relative paths whose first component starts with a dot (hidden directory, hidden file, explicit ./)
+        for i, r in enumerate(st.desc['resources']):
+            r['path'] = ['.cache/r%d.csv', '.r%d.csv', './plain/r%d.csv'][i % 3] % i
     return st
 
 
@@ -50,7 +54,7 @@ def check_scenario(sc):
     with core.scratch_dir() as d:
         root = os.path.join(d, 'out')
         rec = fsrec.Recorder(root)
-        st = scenario_state(shape, nested)
+        st = scenario_state(shape, nested, sc.get('dotted'))
         kw = {}
         if sc.get('counters'):
             kw['counters'] = {'no-hash': {'resource-hash': None}, 'no-bytes': {'resource-bytes': None, 'datapackage-bytes': None}}[sc['counters']]
@@ -159,7 +163,7 @@ def check_scenario(sc):
                                     dict(sc, label=label)))
         for k in range(nops):
             after_failure('OSError at fs op #%d' % k, lambda root2: core.Flow(
-                core.from_state(scenario_state(shape, nested)), core.dataflows.dump_to_path(root2, format=fmt, add_filehash_to_path=filehash, **kw), *tail), fail_at=k)
+                core.from_state(scenario_state(shape, nested, sc.get('dotted'))), core.dataflows.dump_to_path(root2, format=fmt, add_filehash_to_path=filehash, **kw), *tail), fail_at=k)
         total = sum(shape)
         for j in range(total):
             def mk(root2, j=j):
@@ -169,7 +173,7 @@ def check_scenario(sc):
                     cnt[0] += 1
                     if cnt[0] == j + 1:
                         raise RuntimeError('source fails at row %d' % j)
-                return core.Flow(core.from_state(scenario_state(shape, nested), on_pull=boom),
+                return core.Flow(core.from_state(scenario_state(shape, nested, sc.get('dotted')), on_pull=boom),
                                  core.dataflows.dump_to_path(root2, format=fmt, add_filehash_to_path=filehash, **kw), *tail)
             after_failure('source raising at row %d of %d' % (j, total), mk)
         final_what, final_outcome = check_state(fsrec._snapshot(root) if sc.get('relative_chdir') else rec.points[-1][1])
@@ -207,6 +211,9 @@ def scenarios(tier):
             out.append({'shape': sh, 'format': fmt, 'filehash': False, 'nested': False, 'redump': True})
             out.append({'shape': sh, 'format': fmt, 'filehash': True, 'nested': False, 'redump': True})
             out.append({'shape': sh, 'format': fmt, 'filehash': True, 'nested': False, 'cwd_copy': True})
+    for fmt in ('csv', 'json'):
+        for fh in (False, True):
+            out.append({'shape': [1, 3, 1], 'format': fmt, 'filehash': fh, 'nested': False, 'dotted': True})
     # the dumper is not the last step and its consumer is eager
     for fmt in ('csv', 'json'):
         for sh in ([1], [1, 1], [3, 0, 1]):
@@ -233,5 +240,5 @@ def run(run):
 
 
 def replay(w):
-    sc = {k: w[k] for k in ('shape', 'format', 'filehash', 'nested', 'counters', 'eager', 'second_run', 'redump', 'cwd_copy', 'relative_chdir') if k in w}
+    sc = {k: w[k] for k in ('shape', 'format', 'filehash', 'nested', 'counters', 'eager', 'second_run', 'redump', 'cwd_copy', 'relative_chdir', 'dotted') if k in w}
     return check_scenario(sc)['viol']
